@@ -1,0 +1,31 @@
+//! Verification hooks. Compiled only with `--cfg chalk_verif`; never part of a normal build.
+//! Thread-local probe counters ("this rare branch was reached") and one toggle used by the
+//! simulator in /verif. No behaviour of its own.
+
+use std::cell::{Cell, RefCell};
+use std::collections::BTreeMap;
+
+thread_local! {
+    static PROBES: RefCell<BTreeMap<&'static str, u64>> = RefCell::new(BTreeMap::new());
+    static COULD_MATCH_ALWAYS: Cell<bool> = Cell::new(false);
+}
+
+/// Count one hit of the named probe on this thread.
+pub fn probe(name: &'static str) {
+    PROBES.with(|p| *p.borrow_mut().entry(name).or_insert(0) += 1);
+}
+
+/// Take (and reset) this thread's probe counters.
+pub fn take_probes() -> BTreeMap<&'static str, u64> {
+    PROBES.with(|p| std::mem::take(&mut *p.borrow_mut()))
+}
+
+/// When set, `could_match` answers `true` for every clause (the fast pre-filter is skipped).
+pub fn set_could_match_always(on: bool) {
+    COULD_MATCH_ALWAYS.with(|c| c.set(on));
+}
+
+/// Is the pre-filter currently skipped on this thread?
+pub fn could_match_always() -> bool {
+    COULD_MATCH_ALWAYS.with(|c| c.get())
+}
